@@ -178,3 +178,47 @@ def run_exists(prog, rep):
     if n < 2:
         raise AnalysisBroken('R-ERR-EXISTS: existence queries vanished (%d)' % n)
     return rule
+
+
+# catch handlers of the backend; each confirmed by reading
+BACKEND_CATCHES = {
+    'nix::hdf5::FileHDF5::createHeader': 'rethrows a fixed H5Exception after a failed header write (the handler ends in a throw)',
+}
+
+
+def run_no_swallow(prog, rep):
+    """no backend function swallows an exception: a handler in nix::hdf5 code ends in a throw on every path (a failed HDF5 call,
+    e.g. a mutation of a ReadOnly file, must reach the caller as an exception)"""
+    rule = rep.rule('R-NOSWALLOW', 'every catch handler in the HDF5 backend rethrows (ends in a throw on every path): a failed HDF5 call is never turned into a normal return', floor=1)
+    n = 0
+    for f in sorted(prog.funcs.values(), key=lambda f: (f.file, f.line)):
+        if f.body is None or not f.q.startswith('nix::hdf5::'):
+            continue
+        k = 0
+        for x in f.walk():
+            if x.k != 'catch':
+                continue
+            n += 1
+            k += 1
+            body = [c for c in x.c if c is not None and c.k == 'compound']
+            stm = [c for c in (body[-1].c if body else []) if c is not None]
+
+            def ends_in_throw(s):
+                if s is None:
+                    return False
+                if s.k == 'throw':
+                    return True
+                if s.k in ('exprstmt', 'cleanup', 'paren') or (s.k not in ('if', 'compound') and any(y.k == 'throw' for y in s.c if y is not None) and len([y for y in s.c if y is not None]) == 1):
+                    return any(ends_in_throw(y) for y in s.c if y is not None)
+                if s.k == 'compound':
+                    ss = [y for y in s.c if y is not None]
+                    return bool(ss) and ends_in_throw(ss[-1])
+                if s.k == 'if':
+                    return ends_in_throw(s.c[3]) and ends_in_throw(s.c[4])
+                return False
+            ok = bool(stm) and ends_in_throw(stm[-1])
+            rule.check(ok, '%s|catch%d' % (re.sub(r'<.*', '', f.q), k), rep.where(x), f.label(), 'the handler ends in a throw',
+                       'the handler for %s can end without throwing: the failure of the guarded HDF5 calls (for instance on a ReadOnly file) becomes a normal return value' % (x.get('ctype') or '...'))
+    if n < 1:
+        raise AnalysisBroken('R-NOSWALLOW: no catch handler found in the backend (positive example vanished)')
+    return rule
